@@ -355,7 +355,12 @@ func hashes() {
 	// NT/DCC/DCC2
 	roundsSet := []int{1, 2, 3, 10, 100, 1000, 10240}
 	fixed := []string{"", "a", "A", "password", "Pässwörd", "пароль", "密码", "😀", "a😀b", "𐐀𐐨", "é", strings.Repeat("x", 27), strings.Repeat("y", 28), strings.Repeat("z", 32), strings.Repeat("é", 300)}
+	// code-point boundaries: the replacement character itself is a valid code point, as are the
+	// noncharacters, the last code point before and the first after the surrogate range, the first
+	// and last supplementary code points, NUL and DEL
+	fixed = append(fixed, "\uFFFD", "a\uFFFDb\uFFFD", "\uFFFE\uFFFF", "\uD7FF\uE000", "\U00010000\U0010FFFF", "\x00", "a\x00b\x7f", "\u0080\u07FF\u0800")
 	users := []string{"", "tom", "TOM", "Administrator", "ÄDMIN", "Пользователь", "𐐀user", "user.name@corp"}
+	users = append(users, "u\uFFFDser", "\U0010FFFFx", "tom%s", "100%")
 	i := 0
 	for _, pw := range fixed {
 		for _, u := range users {
